@@ -13,26 +13,26 @@ import sys
 ROOT = sys.argv[1]
 ROUND = sys.argv[2]
 KNOWN = {
-"C01": ["separator tag of first set element", "name length as u8", "range min/max swapped", "end-collection 2-byte trailer", "second operation group dropped", "payload dropped from into_read", "header-named attributes dropped outside first operation group", "values after a nested collection in one member dropped", "last attribute of a group lost", "empty groups dropped", "Other 0x10/0x12 with empty data decoded as NoValue", "to_bytes cache not invalidated by header_mut", "case-variant of a header attribute name dropped", "collections nested 17+ levels flattened"],
-"C02": ["length check removed", "unwrap on empty collection stack", "with-language inner length unchecked", "context.len()-1 underflow", "list[0] on empty array", "async read loop spinning on EOF for lengths >= 0x8000", "string slice at non-char boundary when clamping to 65535", "single double-quote value indexes past the end", "C1 control characters panic in Display"],
-"C03": ["tag constants swapped symmetrically", "resolution units-first on both sides", "with-language value-first on both sides", "delimiter omitted between same-tag groups", "job-id lost when printer-uri+job-uri+job-id all present", "member whose value is an empty collection skipped", "adjacent Other values with different tags share a tag", "DateTime direction normalised when offset is zero"],
-"C04": ["member values paired by position", "strict UTF-8 for keyword / with-language", "bad tag skipped", "empty groups dropped", "operation group moved before other groups", "with-language with empty language decoded as without-language", "integer+range sets merged", "trailing NUL trimmed from text"],
-"C05": ["async tag range short", "async read vs read_exact", "async header with single read", "take(len).read_to_end", "async fixed-width read loses progress on Pending", "async lengths as signed i16", "different error when the stream ends right behind a rejected value", "endCollection with a name handled differently"],
-"C06": ["tag read ahead after end", "no retry on Interrupted (blocking bodies)", "async progress reset on Pending", "async payload via blocking Read: Pending -> WouldBlock", "blocking value > 4096 appends requested instead of received count", "Interrupted after the end tag surfaces through AsyncRead", "length exactly 32767 reads one byte too many"],
-"C07": ["EOF at tag position = end", "errors wrapped in Other", "transient WouldBlock/TimedOut retried", "EOF at attribute boundary accepted", "unwrap_or_default on out-of-band value read", "panic slicing long name in error message", "resolution cut after 8 bytes zero-filled", "UnexpectedEof fault inside the header remapped"],
-"C08": ["sync payload EOF via async", "async payload loses bytes via blocking", "payload Empty after zero-length read at seam", "no EINTR retry via async", "& instead of min at 64 KiB buffers", "header tail lost when first payload read is interrupted", "short fragment followed by Pending ends the stream", "empty group breaks the stream header"],
-"C09": ["job-id not in header list", "header attributes in map order", "add appends to last group only", "header attributes sorted by name", "case-insensitive header-name match", "job-id <= 0 not treated as header attribute", "long printer-uri cut at octet 1023"],
-"C10": ["wrong operation code", "user name as keyword", "last-document inverted", "first-wins", "job-name in job group", "first of repeated job attribute names kept", "authority cut at first @", "job-name truncated to 255 octets", "consecutive duplicate requested attributes removed", "requested-attributes [all] omitted", "port with leading zeros rewritten"],
-"C11": ["async accepts 4xx", "custom headers dropped", "payload dropped", "IPP body of HTTP error accepted (blocking)", "BufReader contents dropped before trailing data", "query dropped with explicit port", "URL-safe base64 credentials", "per-socket-op timeout instead of overall (blocking)", "close-delimited response cut at a tag position accepted", "payload-less request retried after a failure"],
-"C12": ["cert check inverted", "NoVerifier when no roots", "roots not added", "hostname check off", "DER root ignored (async rustls)", "config cache keyed without ignore flag", "hostname check off when verifying (native)", "roots accumulate in a process-wide store", "DER < 256 bytes mis-sniffed", "explicit ignore_tls_errors(false) treated as set", "5-minute expiry grace"],
-"C13": ["query kept", "port dropped for IPv6", "user-info kept without port", "cut at first @", "ipp fast path in constructor", "printer-uri clamped to 1023 octets", "trailing dot of host dropped", "host located by text search (found inside user-info)", "dot segments of the path resolved"],
-"C14": ["query dropped with explicit port", "default port inside IPv6 brackets", "textual port test", "authority lower-cased", "leading slashes collapsed", "port 0 treated as absent", "ipp with explicit 443 upgraded to https", "very long URIs truncated"],
-"C15": ["values cloned on collection close", "linear scan per attribute", "buffer per short read", "split_off per member", "quadratic re-validation of invalid UTF-8 names", "sorted-Vec insert per member", "capacity of a wide collection kept for later ones", "weak deterministic hasher (collision flooding)"],
-"C16": ["discriminants swapped", "UnknownStatusCode successful", "signed cast in is_success", "0x35/0x36 exchanged", "exclusive range drops 0x0002", "0x0003/0x0005 aliased in header path", "status masked for version < 1.1", "Other tag outside 0x10..0x7f emitted"],
-"C17": ["all for any", "status gate weakened", "first reason only", "processing/idle short-circuit", "early exit on undecodable state", "binary search over mis-sorted list", "stopped checked before status gate", "printer group selected by position", "printer-is-accepting-jobs overrides paused", "only the first 16 reasons inspected"],
-"C18": ["split at last =", "file truncated", "metadata().len() for FIFOs", "numerals clamped into i32", "HTTP error with IPP body accepted", "state check weakened", "option named like a header attribute moved", "option values trimmed before typing"],
-"C19": ["add to last matching group", "collection iterator off by one", "tail fast path in add", "iterator yields nothing for NoValue", "one-element set unwrapped in traversal", "charset/language write-once", "empty member name skipped in traversal", "groups_of skips empty groups"],
-"C20": ["serde(skip) on a field", "request_id not serialised", "rebuild through add() on deserialise", "skip_serializing_if without default", "keyword no-value collides with NoValue under rename+untagged", "flatten collides with attribute named tag", "Other data rendered as escaped text", "attribute names escaped by hand"],
+"C01": ["separator tag of first set element", "name length as u8", "range min/max swapped", "end-collection 2-byte trailer", "second operation group dropped", "payload dropped from into_read", "header-named attributes dropped outside first operation group", "values after a nested collection in one member dropped", "last attribute of a group lost", "empty groups dropped", "Other 0x10/0x12 with empty data decoded as NoValue", "to_bytes cache not invalidated by header_mut", "case-variant of a header attribute name dropped", "collections nested 17+ levels flattened", "with-language inner length counted in chars", "attribute names ending in NUL trimmed"],
+"C02": ["length check removed", "unwrap on empty collection stack", "with-language inner length unchecked", "context.len()-1 underflow", "list[0] on empty array", "async read loop spinning on EOF for lengths >= 0x8000", "string slice at non-char boundary when clamping to 65535", "single double-quote value indexes past the end", "C1 control characters panic in Display", "resolution units indexed into a small table in Display", "recursive decoding of extension tag 0x7f"],
+"C03": ["tag constants swapped symmetrically", "resolution units-first on both sides", "with-language value-first on both sides", "delimiter omitted between same-tag groups", "job-id lost when printer-uri+job-uri+job-id all present", "member whose value is an empty collection skipped", "adjacent Other values with different tags share a tag", "DateTime direction normalised when offset is zero", "header-named attributes dropped from non-operation groups", "range bounds packed through a sign-extending u64"],
+"C04": ["member values paired by position", "strict UTF-8 for keyword / with-language", "bad tag skipped", "empty groups dropped", "operation group moved before other groups", "with-language with empty language decoded as without-language", "integer+range sets merged", "trailing NUL trimmed from text", "adjacent equal values de-duplicated", "lossy UTF-8 decoding resuming one byte at a time"],
+"C05": ["async tag range short", "async read vs read_exact", "async header with single read", "take(len).read_to_end", "async fixed-width read loses progress on Pending", "async lengths as signed i16", "different error when the stream ends right behind a rejected value", "endCollection with a name handled differently", "async attribute names decoded strictly", "async rejects an additional value with nothing to continue"],
+"C06": ["tag read ahead after end", "no retry on Interrupted (blocking bodies)", "async progress reset on Pending", "async payload via blocking Read: Pending -> WouldBlock", "blocking value > 4096 appends requested instead of received count", "Interrupted after the end tag surfaces through AsyncRead", "length exactly 32767 reads one byte too many", "header fetched with a single read()", "1 MiB Take guard leaking into the payload"],
+"C07": ["EOF at tag position = end", "errors wrapped in Other", "transient WouldBlock/TimedOut retried", "EOF at attribute boundary accepted", "unwrap_or_default on out-of-band value read", "panic slicing long name in error message", "resolution cut after 8 bytes zero-filled", "UnexpectedEof fault inside the header remapped", "header via unchecked take().read_to_end()", "large values guarded only by debug_assert"],
+"C08": ["sync payload EOF via async", "async payload loses bytes via blocking", "payload Empty after zero-length read at seam", "no EINTR retry via async", "& instead of min at 64 KiB buffers", "header tail lost when first payload read is interrupted", "short fragment followed by Pending ends the stream", "empty group breaks the stream header", "every 64th poll drops the bytes read", "request-id 0 streamed as 1"],
+"C09": ["job-id not in header list", "header attributes in map order", "add appends to last group only", "header attributes sorted by name", "case-insensitive header-name match", "job-id <= 0 not treated as header attribute", "long printer-uri cut at octet 1023", "sort key Option ordering puts header attributes last", "map_while stops at the first absent header attribute"],
+"C10": ["wrong operation code", "user name as keyword", "last-document inverted", "first-wins", "job-name in job group", "first of repeated job attribute names kept", "authority cut at first @", "job-name truncated to 255 octets", "consecutive duplicate requested attributes removed", "requested-attributes [all] omitted", "port with leading zeros rewritten", "attributes() replaces instead of extends", "document-format etc. moved to the operation group"],
+"C11": ["async accepts 4xx", "custom headers dropped", "payload dropped", "IPP body of HTTP error accepted (blocking)", "BufReader contents dropped before trailing data", "query dropped with explicit port", "URL-safe base64 credentials", "per-socket-op timeout instead of overall (blocking)", "close-delimited response cut at a tag position accepted", "payload-less request retried after a failure", "response header fetched with one read()", "Interrupted from a blocking payload source aborts the async POST"],
+"C12": ["cert check inverted", "NoVerifier when no roots", "roots not added", "hostname check off", "DER root ignored (async rustls)", "config cache keyed without ignore flag", "hostname check off when verifying (native)", "roots accumulate in a process-wide store", "DER < 256 bytes mis-sniffed", "explicit ignore_tls_errors(false) treated as set", "5-minute expiry grace", "TLS set-up gated on ipps only (https forgotten)", "ca_cert() trims ASCII white space from DER"],
+"C13": ["query kept", "port dropped for IPv6", "user-info kept without port", "cut at first @", "ipp fast path in constructor", "printer-uri clamped to 1023 octets", "trailing dot of host dropped", "host located by text search (found inside user-info)", "dot segments of the path resolved", "implicit :443 added for TLS targets", "ipps inferred from port 443"],
+"C14": ["query dropped with explicit port", "default port inside IPv6 brackets", "textual port test", "authority lower-cased", "leading slashes collapsed", "port 0 treated as absent", "ipp with explicit 443 upgraded to https", "very long URIs truncated", "Host header without the port", "one-entry mapping cache with case-insensitive key"],
+"C15": ["values cloned on collection close", "linear scan per attribute", "buffer per short read", "split_off per member", "quadratic re-validation of invalid UTF-8 names", "sorted-Vec insert per member", "capacity of a wide collection kept for later ones", "weak deterministic hasher (collision flooding)", "per-value recount of buffered values (depth-quadratic)", "eager tag list for a mixed-syntax warning (width-quadratic)"],
+"C16": ["discriminants swapped", "UnknownStatusCode successful", "signed cast in is_success", "0x35/0x36 exchanged", "exclusive range drops 0x0002", "0x0003/0x0005 aliased in header path", "status masked for version < 1.1", "Other tag outside 0x10..0x7f emitted", "out-of-band tags collapsed into no-value", "CUPS 0x1000-0x1002 + class-digit is_success"],
+"C17": ["all for any", "status gate weakened", "first reason only", "processing/idle short-circuit", "early exit on undecodable state", "binary search over mis-sorted list", "stopped checked before status gate", "printer group selected by position", "printer-is-accepting-jobs overrides paused", "only the first 16 reasons inspected", "single keyword reason not inspected", "scan stops at 'none'"],
+"C18": ["split at last =", "file truncated", "metadata().len() for FIFOs", "numerals clamped into i32", "HTTP error with IPP body accepted", "state check weakened", "option named like a header attribute moved", "option values trimmed before typing", "error of the state query ignored (lost ?)", "-o a=1,b=2 split at commas"],
+"C19": ["add to last matching group", "collection iterator off by one", "tail fast path in add", "iterator yields nothing for NoValue", "one-element set unwrapped in traversal", "charset/language write-once", "empty member name skipped in traversal", "groups_of skips empty groups", "new operation group inserted at index 0", "add prefers a later group that already has the name"],
+"C20": ["serde(skip) on a field", "request_id not serialised", "rebuild through add() on deserialise", "skip_serializing_if without default", "keyword no-value collides with NoValue under rename+untagged", "flatten collides with attribute named tag", "Other data rendered as escaped text", "attribute names escaped by hand", "language tags lower-cased on deserialise", "IppVersion via borrowed &str (from_reader fails)"],
 }
 EXTRA = {
  "C11": "(Hint: demos can use a std::net::TcpListener on 127.0.0.1 as a fake HTTP server; blocking client = feature 'client', async = 'async-client' plus tokio from dev-dependencies.)",
@@ -62,7 +62,7 @@ The file {d}/PROPERTY.json contains ONE semantic property the library is suppose
 This is round {ROUND}. The following property-breaking changes are already known — do NOT repeat them or close variations:
 """ + "\n".join(f"  - {i}" for i in ideas) + f"""
 
-Task: produce TWO NEW, different, realistic code changes to the library sources (ipp/ or util/) — slips, "optimisations", clean-ups, refactorings, "hardening" or "compatibility" tweaks a maintainer could plausibly make and a reviewer could plausibly approve — each of which BREAKS this property (for inputs/configurations/schedules INSIDE its quantifier) while (a) still compiling (`CARGO_TARGET_DIR={d}/target cargo build --workspace --offline`) and (b) still passing the complete existing suite (`CARGO_TARGET_DIR={d}/target cargo test --workspace --offline`: 32 + 2 tests). Change 1 should be the kind of ordinary mistake that happens in day-to-day maintenance (a moderately subtle bug affecting a recognisable class of inputs). Change 2 should be HARD to notice: it needs something quite specific to manifest — a rare combination of inputs, an unusual but legal value (boundary lengths, extreme integers, empty strings, unusual characters, unusual tags), a particular order of operations or of map iteration, a particular read fragmentation / not-ready / interrupt pattern, a fault at a particular kind of position, a particular configuration or cargo-feature combination, state carried between two calls, or two cooperating edits that each look harmless — and leaves ordinary use and as many neighbouring cases as possible exactly as before. Think about code paths and clauses of the statement that none of the known changes touches.
+Task: produce TWO NEW, different, realistic code changes to the library sources (ipp/ or util/) — slips, "optimisations", clean-ups, refactorings, "hardening" or "compatibility" tweaks a maintainer could plausibly make and a reviewer could plausibly approve — each of which BREAKS this property (for inputs/configurations/schedules INSIDE its quantifier) while (a) still compiling (`CARGO_TARGET_DIR={d}/target cargo build --workspace --offline`) and (b) still passing the complete existing suite (`CARGO_TARGET_DIR={d}/target cargo test --workspace --offline`: 32 + 2 tests). Change 1 should be a regression of the kind that slips in while doing legitimate larger work on this code: implement (a realistic part of) a plausible feature, refactoring, dependency-API migration, performance improvement or robustness measure - e.g. a new configuration option, support for another value syntax or operation, a different internal data structure, buffering, caching, pooling, limits, logging, better error messages - and let it break the property as a side effect for a recognisable class of inputs. Change 2 should be HARD to notice: it needs something quite specific to manifest — a rare combination of inputs, an unusual but legal value (boundary lengths, extreme integers, empty strings, unusual characters, unusual tags), a particular order of operations or of map iteration, a particular read fragmentation / not-ready / interrupt pattern, a fault at a particular kind of position, a particular configuration or cargo-feature combination, state carried between two calls, or two cooperating edits that each look harmless — and leaves ordinary use and as many neighbouring cases as possible exactly as before. Think about code paths and clauses of the statement that none of the known changes touches.
 
 For each change k in {{1,2}} create {d}/seeded/k/ with: patch.diff (`git diff` against HEAD, library sources only, applies with `git apply`); demo.rs (a Rust integration test file to copy into ipp/tests/, or a clearly named script) that FAILS with the change and PASSES without it, with exact run instructions; notes.md (which clause it breaks, what exactly it needs to manifest, which nearby cases still behave correctly, the commands you ran and their results). Actually run and confirm: build + existing tests with the change; demo failing with and passing without.
 
